@@ -23,6 +23,33 @@ def to_smt2(hyps, goal):
     return "(set-logic ALL)\n" + s.to_smt2()
 
 
+def purify(hyps, goal):
+    """sound weakening used when the direct query is too hard: every application of an uninterpreted function
+    with a sequence result is replaced by a fresh constant (same term -> same constant).  Only congruence is
+    lost, so `unsat` of the purified query implies `unsat` of the original."""
+    seq_apps = {}
+
+    def collect(e):
+        if z3.is_quantifier(e):
+            collect(e.body())
+            return
+        if not z3.is_app(e):
+            return
+        if e.decl().kind() == z3.Z3_OP_UNINTERPRETED and e.num_args() > 0 and z3.is_seq(e):
+            k = e.get_id()
+            if k not in seq_apps:
+                seq_apps[k] = (e, z3.Const("purif!%d" % len(seq_apps), e.sort()))
+            return
+        for ch in e.children():
+            collect(ch)
+    for h in list(hyps) + [goal]:
+        collect(h)
+    pairs = list(seq_apps.values())
+    if not pairs:
+        return None
+    return [z3.substitute(h, *pairs) for h in hyps], z3.substitute(goal, *pairs)
+
+
 def run_solver(name, path, timeout):
     t0 = time.time()
     try:
@@ -117,19 +144,110 @@ def decide(smt, outdir, timeout=20, order=("z3-5.1", "cvc5-1.0.3", "z3-4.8.12"),
     return {"verdict": verdict, "by": by, "times": times, "file": path}
 
 
+def race_files(jobs, timeout):
+    """jobs: [(label, solver, path, accept)] run concurrently; accept = set of answers that decide the
+    obligation for that job (a purified query only counts when it says unsat).  First accepted answer wins."""
+    t0 = time.time()
+    procs = {}
+    for label, solver, path, accept in jobs:
+        procs[label] = (subprocess.Popen(SOLVERS[solver](path, timeout), stdout=subprocess.PIPE, stderr=subprocess.PIPE,
+                                         text=True), solver, accept)
+    times, winner = {}, None
+    pending = dict(procs)
+    while pending and time.time() - t0 < timeout + 5 and winner is None:
+        for label, (p, solver, accept) in list(pending.items()):
+            if p.poll() is not None:
+                out, err = p.communicate()
+                ans = _parse(out)
+                times[label] = (ans, round(time.time() - t0, 3))
+                del pending[label]
+                if ans in accept and winner is None:
+                    winner = (label, solver, ans)
+        if winner is None:
+            time.sleep(0.01)
+    for label, (p, solver, accept) in pending.items():
+        p.kill()
+        p.communicate()
+        if winner is None:
+            times[label] = ("timeout", round(time.time() - t0, 3))
+    return winner, times
+
+
 def discharge_all(obligs, outdir, timeout=20, jobs=16, all_solvers=False, order=None):
+    """phase 1: z3 5.1 alone, 2 s (most obligations take milliseconds).  phase 2, for what is left: z3 5.1 and
+    cvc5 on the query raced with z3 5.1 / cvc5 on its purified weakening; then z3 4.8.12.
+    thorough (all_solvers): every solver answers every obligation and they must agree."""
     os.makedirs(outdir, exist_ok=True)
-    smts = []
-    for o in obligs:
-        smts.append(to_smt2(o.hyps, o.goal))
-    # identical queries (same text) are decided once
+    smts = [to_smt2(o.hyps, o.goal) for o in obligs]
     uniq = {}
     for s in smts:
         uniq.setdefault(s, None)
     keys = list(uniq)
+    if all_solvers or order is not None:
+        with ThreadPoolExecutor(max_workers=jobs) as ex:
+            kw = {"order": order} if order else {}
+            for k, r in zip(keys, ex.map(lambda s: decide(s, outdir, timeout, all_solvers=all_solvers, **kw), keys)):
+                uniq[k] = r
+        return [uniq[s] for s in smts]
+
+    def phase1(s):
+        h = hashlib.sha1(s.encode()).hexdigest()[:16]
+        path = os.path.join(outdir, "%s.smt2" % h)
+        with open(path, "w") as f:
+            f.write(s)
+        ans, dt = run_solver("z3-5.1", path, 2)
+        v = ans if ans in ("sat", "unsat") else "unknown"
+        if v == "unsat":
+            try:
+                os.unlink(path)
+            except OSError:
+                pass
+        return {"verdict": v, "by": "z3-5.1" if v != "unknown" else None, "times": {"z3-5.1": (ans, round(dt, 3))}, "file": path}
     with ThreadPoolExecutor(max_workers=jobs) as ex:
-        for k, r in zip(keys, ex.map(lambda s: decide(s, outdir, timeout, all_solvers=all_solvers, **({'order': order} if order else {})), keys)):
+        for k, r in zip(keys, ex.map(phase1, keys)):
             uniq[k] = r
+    # phase 2
+    first = {}
+    for i, s in enumerate(smts):
+        if uniq[s]["verdict"] == "unknown" and s not in first:
+            first[s] = i
+    work = []
+    for s, i in first.items():
+        p = purify(obligs[i].hyps, obligs[i].goal)
+        ppath = None
+        if p:
+            ps = to_smt2(p[0], p[1])
+            ppath = os.path.join(outdir, "%s.purified.smt2" % hashlib.sha1(ps.encode()).hexdigest()[:16])
+            with open(ppath, "w") as f:
+                f.write(ps)
+        work.append((s, uniq[s]["file"], ppath))
+
+    def phase2(w):
+        s, path, ppath = w
+        js = [("z3-5.1+", "z3-5.1", path, {"sat", "unsat"}), ("cvc5-1.0.3", "cvc5-1.0.3", path, {"sat", "unsat"})]
+        if ppath:
+            js += [("z3-5.1 (purified)", "z3-5.1", ppath, {"unsat"}), ("cvc5-1.0.3 (purified)", "cvc5-1.0.3", ppath, {"unsat"})]
+        winner, times = race_files(js, timeout)
+        r = dict(uniq[s])
+        r["times"] = dict(r["times"], **times)
+        if winner:
+            r["verdict"], r["by"] = winner[2], winner[0]
+        else:
+            ans, dt = run_solver("z3-4.8.12", path, timeout)
+            r["times"]["z3-4.8.12"] = (ans, round(dt, 3))
+            if ans in ("sat", "unsat"):
+                r["verdict"], r["by"] = ans, "z3-4.8.12"
+        if r["verdict"] == "unsat":
+            for f in (path, ppath):
+                try:
+                    if f:
+                        os.unlink(f)
+                except OSError:
+                    pass
+        return s, r
+    with ThreadPoolExecutor(max_workers=max(1, jobs // 4)) as ex:
+        for s, r in ex.map(phase2, work):
+            uniq[s] = r
     return [uniq[s] for s in smts]
 
 
